@@ -814,17 +814,8 @@ def process (d3 d12 : Bool) (line : String) : List String :=
                 (unSamples sI (fun a => if (samples sJ).any (fun b => relHolds rel a b) then some a else none) [] "rex")
             else
               let spec := Spec.refineUn sI rel sJ
-              -- the argument's bound consulted by the relation is a SPECIAL infinity: the code reads
-              -- the unspecified stored value through SCALAR_INFO (cannot be modelled)
-              let garbage := p.storeSpecial && !checkEmptyArg p J &&
-                (match rel with
-                 | .lt | .le => !J.lo.value.isFin
-                 | .gt | .ge => !J.hi.value.isFin
-                 | _ => false)
-              let tags := (if garbage then ["argument_bound_is_special_infinity"] else [])
-                ++ (if rel == .ne then ["not_equal_only_end_points"] else [])
-              setOp (refineUniversal p R I rel J) spec (strictOk rel) tags garbage
-                (unSamples sI (fun a => if Spec.mem spec a then some a else none) tags "run")
+              setOp (refineUniversal p R I rel J) spec (strictOk rel) [] false
+                (unSamples sI (fun a => if Spec.mem spec a then some a else none) [] "run")
           | none => [mism id "parse" "" ("bad relation in " ++ ops)]
         else if opn == "wrap" then
           let w := (opParts.getD 1 "8").toNat!
